@@ -14,9 +14,17 @@ TRUSTED_BASE = [
 ]
 
 PLAN = {
+    "C07": {
+        "level": "proof",
+        "contracts": ["contracts.evaluation", "contracts.constraints"],
+    },
+    "C11": {
+        "level": "proof",
+        "contracts": ["contracts.evaluation", "contracts.constraints"],
+    },
     "C02": {
         "level": "proof",
-        "contracts": ["contracts.evaluation"],
+        "contracts": ["contracts.evaluation", "contracts.constraints"],
     },
     "C03": {
         "level": "proof",
